@@ -205,6 +205,16 @@ add("FX-30", "82b7edf", "C09", "fidepeer.valid_rejected", "FeatureIDEReader.tran
              "C09"))
 
 
+_fama = ('<feature-model><feature name="A"><binaryRelation name="R-1"><cardinality min="0" '
+         'max="1"/><solitaryFeature name="B"/></binaryRelation></feature></feature-model>')
+_p = put_plan("xml", _fama, {"kind": "model", "ref": M(F("A", [R(0, 1, F("B"))])),
+                             "facets": ["names", "tree", "ctc_count", "ctc_equiv"]}, "C09")
+_p["segments"][0]["ops"].append({"i": 3, "op": "READ", "fmt": "xml", "path": "d0/p.xml",
+                                 "pathstyle": "abs", "reader": "reuse"})
+add("FX-31", "1794224", "C09", "xmlpeer.valid_rejected", "XMLReader.transform",
+    "a second transform() on the same XMLReader object raised DuplicatedFeature", _p)
+
+
 def main():
     os.makedirs(os.path.join(orch.VERIF, "known"), exist_ok=True)
     lines = []
